@@ -95,6 +95,9 @@ func GenerateConcurrent(t *rapid.T) *ConcProgram {
 	if g.chance("gocallshape", 12) {
 		return g.goCallFrontier()
 	}
+	if g.chance("captureassignshape", 10) {
+		return g.captureAssignFrontier()
+	}
 	independent := g.chance("independent", 55)
 	nthreads := 1 + g.pick("nthreads", 3)
 	useMachine := false
@@ -332,6 +335,46 @@ func (g *cgen) goCallFrontier() *ConcProgram {
 	}
 	w("\tx = %d\n\t*p = %d\n", 200+g.pick("gcx2", 50), 300+g.pick("gcp2", 50))
 	w("\twg.Wait()\n\treturn *out + r.v, x\n}\n")
+	var feats []string
+	for f := range g.feats {
+		feats = append(feats, f)
+	}
+	return &ConcProgram{Src: "package main\n\nimport (\n\t\"sync\"\n)\n\n" + b.String(), Independent: true, Features: feats, Threads: 2, MayReject: true}
+}
+
+// captureAssignFrontier: a goroutine captures a variable that is a plain value in GooseLang (a :=
+// variable or a parameter) and the parent changes it after the go statement, ordered by a mutex the
+// parent holds across the go statement. goose rejects such assignments today; a change that starts
+// accepting them (as a re-binding) must still let the goroutine see the new value (seeded change
+// C03-4). Rejection is fine (MayReject); the result does not depend on the schedule.
+func (g *cgen) captureAssignFrontier() *ConcProgram {
+	g.feat("parent-assigns-captured-value-variable")
+	var b strings.Builder
+	w := func(format string, a ...any) { fmt.Fprintf(&b, format, a...) }
+	param := g.chance("caparam", 40)
+	update := []string{"limit = %d", "limit = limit + %d", "limit += %d"}[g.pick("caupdate", 3)]
+	update = fmt.Sprintf(update, 2+g.pick("caval", 50))
+	if g.chance("caincdec", 15) {
+		update = "limit++"
+	}
+	body := func(ind string) {
+		w(ind + "mu := new(sync.Mutex)\n" + ind + "wg := new(sync.WaitGroup)\n" + ind + "got := new(uint64)\n" + ind + "wg.Add(1)\n")
+		w(ind + "mu.Lock()\n")
+		w(ind + "go func() {\n" + ind + "\tmu.Lock()\n" + ind + "\t*got = limit\n" + ind + "\tmu.Unlock()\n" + ind + "\twg.Done()\n" + ind + "}()\n")
+		w(ind + update + "\n")
+		w(ind + "mu.Unlock()\n" + ind + "wg.Wait()\n")
+	}
+	if param {
+		g.feat("captured-parameter")
+		w("func run(limit uint64) (uint64, uint64) {\n")
+		body("\t")
+		w("\treturn *got, limit\n}\n\n")
+		w("func entry0() (uint64, uint64) {\n\treturn run(%d)\n}\n", 1+g.pick("cainit", 9))
+	} else {
+		w("func entry0() (uint64, uint64) {\n\tlimit := uint64(%d)\n", 1+g.pick("cainit", 9))
+		body("\t")
+		w("\treturn *got, limit\n}\n")
+	}
 	var feats []string
 	for f := range g.feats {
 		feats = append(feats, f)
